@@ -41,17 +41,18 @@ def tyinfo(tystr):
 
 
 class AV:
-    __slots__ = ('k', 'lo', 'hi', 'vid', 'sym', 'ubs', 'lin', 'vs', 'cond', 'tgt', 'ty', 'extra', 'nan')
+    __slots__ = ('k', 'lo', 'hi', 'vid', 'sym', 'ubs', 'lin', 'vs', 'cond', 'tgt', 'ty', 'extra', 'nan', 'divof')
 
     def __init__(self, k, lo=None, hi=None, ty=None, **kw):
         self.k = k; self.lo = lo; self.hi = hi; self.ty = ty
         self.vid = kw.get('vid') or next(_vid)
         self.sym = kw.get('sym'); self.ubs = kw.get('ubs') or frozenset(); self.lin = kw.get('lin')
         self.vs = kw.get('vs'); self.cond = kw.get('cond'); self.tgt = kw.get('tgt'); self.extra = kw.get('extra'); self.nan = kw.get('nan', False)
+        self.divof = kw.get('divof')
 
     def clone(self, **kw):
         a = AV(self.k, self.lo, self.hi, self.ty, vid=kw.get('vid', self.vid), sym=self.sym, ubs=self.ubs, lin=self.lin, vs=self.vs,
-               cond=self.cond, tgt=self.tgt, extra=self.extra, nan=self.nan)
+               cond=self.cond, tgt=self.tgt, extra=self.extra, nan=self.nan, divof=self.divof)
         for k, v in kw.items():
             if k != 'vid': setattr(a, k, v)
         return a
@@ -840,6 +841,9 @@ class Interp:
         if a.k == 'int' and b.k == 'int':
             r = arith(base, a, b, a.ty)
             ty = a.ty
+            # x - (x / k) * k : the subtrahend is a multiple of k not above x (recorded as the bound ('vidp1', vid of x): value < x + 1)
+            if r is not None and base == 'Sub' and a.vid is not None and ('vidp1', a.vid) in b.ubs and a.lo >= 0:
+                r = (max(r[0], 0), r[1])
             if r is None:
                 res = top_int(ty); math_r = None
             else:
@@ -853,6 +857,11 @@ class Interp:
                     ov = False
                 res = mk_int(lo, hi, ty); math_r = r
                 if base == 'Mul' and a.lo >= 0 and b.lo >= 0: res.extra = ('mul', a.vid, b.vid, a.lo if a.lo == a.hi else None, b.lo if b.lo == b.hi else None)
+                if base == 'Mul' and not ov:
+                    for p_, q_ in ((a, b), (b, a)):
+                        dv = getattr(p_, 'divof', None)
+                        if dv is not None and q_.lo == q_.hi == dv[1]: res.ubs = frozenset(set(res.ubs) | {('vidp1', dv[0])})
+                if base == 'Div' and b.lo == b.hi and b.lo >= 1 and a.lo >= 0 and a.vid is not None: res.divof = (a.vid, b.lo)
                 if base == 'Rem' and a.lo >= 0 and b.lo >= 0: res.extra = ('rem', a.vid)
                 if not ov:
                     if base == 'Add' and b.lo == b.hi: res.lin = _lin(a, b.lo)
